@@ -39,6 +39,13 @@ def Item.noLoad : Item → Prop
   | .evalCall _ _ => False
   | _ => True
 
+/-- the literal arguments written at a call -/
+def Item.hasConst (it : Item) (v : PyVal) : Prop :=
+  match it with
+  | .callArgs _ args kwargs _ _ _ | .keep _ _ args kwargs _ _ _ =>
+    AstArg.const v ∈ args ∨ ∃ n, (n, AstArg.const v) ∈ kwargs
+  | _ => False
+
 /-- the line where the call of an item ends -/
 def Item.line : Item → Nat
   | .call _ l | .ref _ l | .load _ l | .evalCall _ l => l
@@ -52,6 +59,10 @@ structure Universe where
   varsIn : ∀ f, fns f → ∀ nv ∈ f.vars, vals nv.2
   varNames : ∀ f, fns f → (f.vars.map Prod.fst).Nodup
   noLoads : ∀ f, fns f → ∀ it ∈ f.items, it.noLoad
+  /-- literal arguments and defaults are values on which `dds_hash` is injective; parameters are plain -/
+  constsIn : ∀ f, fns f → ∀ it ∈ f.items, ∀ v, it.hasConst v → vals v
+  defaultsIn : ∀ f, fns f → ∀ p ∈ f.params, ∀ d, p.default = some d → vals d
+  plainParams : ∀ f, fns f → plainParams f.params = true
   /-- parameter names are distinct, and none is called `context` (the key `arg_context` is reserved) -/
   paramNames : ∀ f, fns f → (f.params.map Param.name).Nodup
   noCtxParam : ∀ f, fns f → ∀ p ∈ f.params, p.name ≠ "context"
